@@ -408,6 +408,7 @@ def run(chk):
     chk.note_fn(fn)
     check_single_evaluation(chk, m)
     from .purity import check_no_static_influence
+    chk.rule("M5", "rand31_r(<expression>) evaluates its argument once and reads and writes the state through that one value (a macro may not)")
     chk.rule("M6", "the generator's only state is *seedp: no value read from a mutable static object reaches the new state or the result")
     check_no_static_influence(chk, "M6.stateless", m, fn, "the next state then depends on other generators' calls, not only on *seedp")
     dropped = []
